@@ -117,7 +117,8 @@ def rmessage(rng, tier):
 		if rng.random() < 0.03:
 			segs[0] = 'a:b'
 		c['segs'] = [''] + segs
-		c['query'] = rng.choice([None, None, [['k', 'v']], [['ü', '€ &'], ['a', '']], [['a b', 'c=d'], ['x', 'ä/?#']]])
+		c['query'] = rng.choice([None, None, [['k', 'v']], [['ü', '€ &'], ['a', '']], [['a b', 'c=d'], ['x', 'ä/?#']],
+			[['matrix', 'x=1;y=2']], [['a;b', 'c'], ['d', ';']], [['q', 'a+b c%41'], ['%', '+']], [['\U0001f600', "it's, (ok)!*~"]], [['p', '/../.'], ['@', ':']]])
 		c['host'] = rng.choice(['example.com', 'example.com', 'sub.example.org', '127.0.0.1']) if (c['version'] == [1, 1] or rng.random() < 0.7) else None
 		if c['host'] and rng.random() < 0.2:
 			c['port'] = rng.choice([80, 8080])
@@ -159,6 +160,15 @@ def gen_cases(rng, tier):
 	for o in range(256):
 		cases.append({'k': 'resp', 'version': [1, 1], 'status': 200, 'reason': None, 'rmethod': 'GET', 'hdrs': [], 'body': {'t': 'bytes', 'items': ['%02x' % o]},
 			'coding': None if o % 2 else 'gzip', 'chunked': bool(o % 3 == 0)})
+	# Latin-1 header values whose octets happen to be well-formed UTF-8, separators, and every query metacharacter
+	for raw in (b'\xc3\xa9', b'price: \xc2\xa35', b'\xe2\x82\xac', b'\xf0\x9f\x98\x80', b'caf\xe9', b'a;b,c="d"', b'\xff\xfe'):
+		for kind in ('req', 'resp'):
+			c = {'k': kind, 'version': [1, 1], 'hdrs': [['X-Latin', raw.hex()], ['X-Other', b'plain'.hex()]], 'body': {'t': 'bytes', 'items': [b'x'.hex()]}, 'coding': None, 'chunked': False}
+			if kind == 'req':
+				c.update(method='POST', segs=['', 'p'], query=[['matrix', 'x=1;y=2'], ['a;b', '+ %']], host='example.com')
+			else:
+				c.update(status=200, reason=None, rmethod='GET')
+			cases.append(c)
 	for _ in range(20000 if big else 1100):
 		cases.append(rmessage(rng, tier))
 	return cases
@@ -267,6 +277,19 @@ def oracle(c, o):
 			continue
 		if got.get(ln.encode('ascii')) != bytes.fromhex(value):
 			return 'header field %s: %r became %r' % (name, bytes.fromhex(value), got.get(ln.encode('ascii')))
+		# ... and the same value as text: what the application reads with headers[name] (Latin-1 text in, Latin-1 text out;
+		# values that look like RFC 2047 encoded words are known finding D16 of C08 and skipped)
+		raw = bytes.fromhex(value)
+		if b'=?' not in raw:
+			from httoop import Headers
+			h = Headers()
+			h[name] = raw
+			try:
+				text = h[name]
+			except Exception as exc:
+				return 'header field %s: value %r cannot be read as text: %s' % (name, raw, type(exc).__name__)
+			if text != raw.decode('ISO8859-1'):
+				return 'header field %s: the text %r set by the caller is read back as %r' % (name, raw.decode('ISO8859-1'), text)
 	return None
 
 
